@@ -105,9 +105,13 @@ func genQueries(r *Rng, all []int64, n int, stream string) []E2EOp {
 }
 
 func genE2E(r *Rng, i int) *E2ECase {
-	streams := []string{"mono", "mono", "mono", "mono", "zero", "jitter", "extreme", "dropwrite"}
+	streams := []string{"mono", "mono", "mono", "spiky", "zero", "jitter", "extreme", "dropwrite"}
 	ec := &E2ECase{Stream: streams[i%len(streams)]}
 	ec.ChunkRecs = r.PickInt(0, 0, 700, 400, 260, 251, 250, 249, 120)
+	if ec.Stream == "spiky" {
+		// few, long chunks: the index rebuild scans a chunk in 250-record segments
+		ec.ChunkRecs = r.PickInt(0, 0, 750, 500)
+	}
 	kind := ec.Stream
 	cur := int64(r.Range(1, 100000))
 	switch ec.Stream {
@@ -160,6 +164,12 @@ func genE2E(r *Rng, i int) *E2ECase {
 					}
 					tss[k] = cur
 				}
+			} else if ec.Stream == "spiky" {
+				base := len(all)
+				if ec.ChunkRecs > 0 {
+					base %= ec.ChunkRecs
+				}
+				tss = spikyData(r, n, &cur, base)
 			} else {
 				tss = tsProcess(r, kind, n, &cur)
 			}
@@ -202,8 +212,61 @@ func genE2E(r *Rng, i int) *E2ECase {
 	if r.Chance(1, 4) {
 		ec.Ops = append(ec.Ops, E2EOp{K: "serve"})
 	}
+	if ec.Stream == "spiky" {
+		// the index files are lost; point queries inside every 250-record stretch make the selector ask for a rebuild of
+		// every chunk; the rebuilder scans the (non-monotone) chunks; then ranges around the out-of-order events
+		ec.Ops = append(ec.Ops, E2EOp{K: "drop"})
+		for p := 125; p < len(all); p += 250 {
+			ec.Ops = append(ec.Ops, E2EOp{K: "read", O1: i64p(all[p]), O2: i64p(all[p])})
+		}
+		ec.Ops = append(ec.Ops, E2EOp{K: "serve"})
+		ec.Ops = append(ec.Ops, spikeQueries(r, all, 8)...)
+		ec.Ops = append(ec.Ops, genQueries(r, all, r.Range(2, 5), ec.Stream)...)
+		return ec
+	}
 	ec.Ops = append(ec.Ops, genQueries(r, all, r.Range(8, 16), ec.Stream)...)
 	return ec
+}
+
+// spikeQueries: ranges one of whose bounds lies between the timestamp of an out-of-order event and the timestamps
+// of its neighbours in stored order
+func spikeQueries(r *Rng, all []int64, n int) []E2EOp {
+	var sp []int
+	for i := 1; i+1 < len(all); i++ {
+		if (all[i] > all[i-1] && all[i] > all[i+1]) || (all[i] < all[i-1] && all[i] < all[i+1]) {
+			sp = append(sp, i)
+		}
+	}
+	var out []E2EOp
+	at := func(p int) int64 {
+		if p < 0 {
+			p = 0
+		}
+		if p >= len(all) {
+			p = len(all) - 1
+		}
+		return all[p]
+	}
+	for k := 0; k < n && len(sp) > 0; k++ {
+		i := sp[r.Intn(len(sp))]
+		lo, hi := at(i-r.Range(1, 8)), at(i+r.Range(1, 8))
+		if lo > hi {
+			lo, hi = hi, lo
+		}
+		switch r.Intn(3) {
+		case 0: // the neighbours without the event (when it is outside)
+			out = append(out, E2EOp{K: "read", O1: i64p(lo), O2: i64p(hi)})
+		case 1: // from the neighbours up to the event's timestamp
+			a, b := lo, all[i]
+			if a > b {
+				a, b = b, hi
+			}
+			out = append(out, E2EOp{K: "read", O1: i64p(a), O2: i64p(b)})
+		default:
+			out = append(out, E2EOp{K: "read", O2: i64p(hi)}, E2EOp{K: "read", O1: i64p(lo)})
+		}
+	}
+	return out
 }
 
 // corpus: the witnesses of the _refuted theorems of coq/props/C02.v (a-f), and the MinInt64 edge of the repaired lower bound (g)
@@ -251,6 +314,21 @@ func corpus() []Replay {
 		{K: "batch", Ts: append(rep(minI64, 249), minI64+1)}, {K: "batch", Ts: append(rep(minI64+1, 249), -5)},
 		{K: "read", O2: i64p(0)}, {K: "read", O1: i64p(minI64), O2: i64p(0)}, {K: "read", O1: i64p(minI64 + 1), O2: i64p(-5)},
 		{K: "read", O2: i64p(minI64)}}}})
+	// (h) an index REBUILT by scanning non-monotone data is still exact: 520 events stamped 1000+10*pos, except that the
+	// last record of the first 250-record segment (position 249) is stamped 500 ahead of the stream; index lost, a query
+	// asks for the rebuild, the rebuilder scans the chunk: the second segment overlaps the first one's maximum and must
+	// be merged into a covering interval. RANGE [ts(245):ts(255)] has the 10 events 245..255 without 249.
+	{
+		ts := make([]int64, 520)
+		for i := range ts {
+			ts[i] = 1000 + 10*int64(i)
+		}
+		ts[249] += 500
+		out = append(out, Replay{Kind: "e2e", E2E: &E2ECase{Stream: "spiky", Ops: []E2EOp{
+			{K: "batch", Ts: ts[:260]}, {K: "batch", Ts: ts[260:]}, {K: "drop"},
+			{K: "read", O1: i64p(ts[100]), O2: i64p(ts[100])}, {K: "serve"},
+			{K: "read", O1: i64p(ts[245]), O2: i64p(ts[255])}, {K: "read", O2: i64p(ts[251])}, {K: "read", O1: i64p(ts[249] - 5)}}}})
+	}
 	return out
 }
 
@@ -441,16 +519,52 @@ func runE2E(rp Replay) (*Case, error) {
 	}
 	var hist []string
 	var viol *Violation
+	// the first failure of the case is reported, except that one of the two recorded classes gives way to any other
+	// failure later in the same case
+	recorded := map[string]bool{"range-incomplete-non-monotone-timestamps": true, "range-incomplete-write-after-index-loss-before-rebuild": true}
 	fail := func(class, detail string) {
-		if viol == nil {
+		if viol == nil || (recorded[viol.Class] && !recorded[class]) {
 			viol = &Violation{Class: class, Detail: detail}
 		}
 	}
+	// a finding about the index itself; reported unless a RANGE query of the same case fails (the query is the
+	// better witness)
+	var idxViol *Violation
 	sortedAll := true
 	zeroFirst := false
 	negRebuild := false
 	pendingDropWrite := false
 	syncedSinceDrop := true
+	// chunks (by ordinal) whose index was built by the rebuilder scanning the chunk and that were not written to since
+	rebuiltClean := map[int]bool{}
+	// the timestamps of chunk ordinal o in stored order
+	chunkData := func(o int) []int64 {
+		lo := 0
+		for k := 0; k < o-1; k++ {
+			lo += e.cnts[k]
+		}
+		return e.all[lo : lo+e.cnts[o-1]]
+	}
+	// does the TsIndexer's current view of the chunk (hull, index records if any) bound the chunk's timestamps
+	// the way the selector relies on ("" = yes)
+	chunkConsistent := func(o int) string {
+		data := chunkData(o)
+		if len(data) == 0 {
+			return ""
+		}
+		mn, mx := minmax(data)
+		ri, err := e.srv.TsIndexer.GetRecordsInfo(e.src, e.cids[o-1])
+		if err != nil {
+			return "no hull: " + err.Error()
+		}
+		if ri.MinTs > mn || ri.MaxTs < mx {
+			return fmt.Sprintf("hull [%d,%d] does not contain the timestamps [%d,%d]", ri.MinTs, ri.MaxTs, mn, mx)
+		}
+		if recs, err := e.srv.TsIndexer.ReadData(e.src, e.cids[o-1]); err == nil {
+			return indexBounds(recs, data)
+		}
+		return ""
+	}
 	maxPts := 0
 	cutInside := false
 	nreads, nbatches := 0, 0
@@ -478,6 +592,9 @@ func runE2E(rp Replay) (*Case, error) {
 			if err != nil {
 				return nil, err
 			}
+			for _, sg := range segs {
+				delete(rebuiltClean, sg[0])
+			}
 			var gs []string
 			off := 0
 			for _, sg := range segs {
@@ -491,9 +608,27 @@ func runE2E(rp Replay) (*Case, error) {
 			nbatches++
 		case "serve":
 			if e.src != "" {
+				noIndex := map[chunk.Id]bool{}
+				for _, c := range e.cids {
+					_, err := e.srv.TsIndexer.ReadData(e.src, c)
+					noIndex[c] = err != nil
+				}
 				served := e.srv.Partitions.VC02ServeQueued()
 				for _, c := range served {
 					o := e.ordinal(c)
+					if o > 0 && noIndex[c] {
+						// oracle: an index that was just built by scanning the chunk bounds the chunk's timestamps whatever
+						// their order, and the hull contains them
+						if _, err := e.srv.TsIndexer.ReadData(e.src, c); err == nil {
+							rebuiltClean[int(o)] = true
+							tags = append(tags, "e2e-scanned-rebuild")
+							if msg := chunkConsistent(int(o)); msg != "" {
+								if idxViol == nil {
+									idxViol = &Violation{Class: "rebuilt-index-bounds", Detail: fmt.Sprintf("chunk %d (%d records) rebuilt by scanning: %s", o, e.cnts[o-1], msg)}
+								}
+							}
+						}
+					}
 					if o > 0 {
 						lo := 0
 						for k := 0; k < int(o-1); k++ {
@@ -533,6 +668,7 @@ func runE2E(rp Replay) (*Case, error) {
 				return nil, fmt.Errorf("restart: %v", err)
 			}
 			syncedSinceDrop = false
+			rebuiltClean = map[int]bool{}
 			gop = "EDrop"
 		case "read":
 			if e.src == "" {
@@ -711,6 +847,32 @@ func runE2E(rp Replay) (*Case, error) {
 				case allT1 && lostPrefix:
 					cls = "range-incomplete-lower-bound-equal-ts-run"
 				}
+				// The two recorded classes are about a hull or an index that does not bound the chunk's timestamps (index
+				// points taken from write notifications, hull from the first/last record or from one batch). They do not
+				// explain events lost from a chunk whose index the rebuilder has just built by scanning it, nor from a
+				// chunk whose hull and index, as the TsIndexer reports them now, do bound its timestamps.
+				if cls == "range-incomplete-non-monotone-timestamps" || cls == "range-incomplete-write-after-index-loss-before-rebuild" {
+					st := make([]int, len(e.cnts)+1)
+					for k, c := range e.cnts {
+						st[k+1] = st[k] + c
+					}
+					seen := map[int]bool{}
+					for _, ev := range missing {
+						o := sort.Search(len(e.cnts), func(k int) bool { return st[k+1] > ev.seq }) + 1
+						if seen[o] || o > len(e.cnts) {
+							continue
+						}
+						seen[o] = true
+						if rebuiltClean[o] {
+							cls = "range-incomplete-rebuilt-index"
+							break
+						}
+						if chunkConsistent(o) == "" {
+							cls = "range-incomplete-consistent-index"
+							break
+						}
+					}
+				}
 				fail(cls, fmt.Sprintf("%s lost %d of %d in-range events, first lost: seq %d ts %d (stream %s, %d events in %d chunks)",
 					q, len(missing), len(want), missing[0].seq, missing[0].ts, ec.Stream, e.total, len(e.cids)))
 			}
@@ -752,6 +914,9 @@ func runE2E(rp Replay) (*Case, error) {
 		hist = append(hist, GPair(gop, fmt.Sprintf("(mkeobs %s %s %s %s)", views, queue, gEvents, gWindows)))
 	}
 	tags = append(tags, "e2e:"+ec.Stream, fmt.Sprintf("e2e-chunks:%d", len(e.cids)), fmt.Sprintf("e2e-sorted:%v", sortedAll))
+	if idxViol != nil && (viol == nil || recorded[viol.Class]) {
+		viol = idxViol
+	}
 	return &Case{
 		Coq:        GApp("KE2E", GList(hist)),
 		Replay:     rp,
